@@ -1,7 +1,7 @@
 (* C07 - The traced schema does not depend on sample order or repetition.
    Model: Trace/Tracer.v (trace, to_field, from_samples), compared with the crate on every run
    (exhaustive leaf pairs x 16 option sets, triples, nested shapes). *)
-From Verif Require Import Tracer Coerce Coerce_proofs.
+From Verif Require Import Tracer Coerce Coerce_proofs CoerceTable CoerceTable_proofs TracerTablesSpec.
 From Coq Require Import Permutation.
 
 (* Full-strength statement (kept visible): evaluated on the implementation on every run by the
@@ -59,5 +59,12 @@ Example C07_example :
   trace_seq o 1 vs (TUnknown false) = Ok (TPrim true PFloat64) /\ trace_seq o 1 (rev vs) (TUnknown false) = Ok (TPrim true PFloat64).
 Proof. vm_compute. repeat split; try reflexivity; discriminate. Qed.
 
+(* the model's coerce_core IS the match of coerce_primitive_type in /repo's tracer.rs: the arms are regenerated
+   from the source on every run (Gen/TracerTables.v) and read as a first-match table *)
+Theorem C07_coerce_arms_match_model : forall cn ts lg prev nl curr,
+  CoerceTable.first_match TracerTables.coerce_arms cn ts lg prev nl curr = Some (coerce_core cn ts lg prev nl curr).
+Proof. exact CoerceTable_proofs.coerce_table_is_model. Qed.
+
 Print Assumptions C07_leaf_perm_partial.
 Print Assumptions C07_leaf_success_order_free_partial.
+Print Assumptions C07_coerce_arms_match_model.
